@@ -7,14 +7,14 @@ MANIFEST = (
     "exploration",
     "runtime monitor: generated parameter sets -> own XML emitter -> parameter_reader -> field-by-field differential comparison with an own number parser; "
     "enumerated single-omission / sign-violation files -> exception oracle; paired one-cell solver runs from two files differing in one value, "
-    "observed through a solver subclass, friend testers and the phase hook against own models; reader parts repeated under ASan/UBSan",
+    "observed through a solver subclass, friend testers and the phase hook against own models; the file through simulation_initializer(parameter file) as main() does it (reported parameters, perform_initial_triangulation governs the input geometry); reader parts repeated under ASan/UBSan",
     "Held on every generated file of the run: 800 (quick) / 55 000 (thorough) random admissible files (1-6 cell types x 1-5 face types, values over 600 decades, "
     "10+ number notations, INF/inf/Inf, zeros, shuffled tags, unknown and decoy tags, comments, CRLF), each of the 32 tags + 4 structural elements omitted and each of "
     "the 16 constraints the reader documents violated (>= 3 positions / 4-6 values each), and 20 tags exercised in paired solver runs "
     "(exact for time step, duration, sampling period; 1e-9 for densities, moduli, tensions). Exploration is the right level: the reader is a finite table of "
     "tag->field wirings and validation rules, each of which every run reaches many times; values and layouts are sampled.",
     "Trusts std::from_chars as number oracle (cross-checked against strtod on every value) and the own force / pressure / integration models of part B. Not covered: malformed or empty "
-    "elements (C17), meaning of adherence/repulsion strength, surface_coupling_max_curvature, global ids and perform_initial_triangulation in a run (need contacts / files: C06, C07, C16, C19); "
+    "elements (C17), meaning of adherence/repulsion strength, surface_coupling_max_curvature, global ids in a run (need contacts / files: C06, C07, C16, C19); "
     "cut-offs are observed as stored in the contact model, not through a contact.",
     "DESIGN.md section 3, C18",
 )
